@@ -651,7 +651,7 @@ def observe(font, name, a, scratch, counter, probes, faults):
     raise ValueError(name)
 
 
-def run_reference(src, h, steps, upto, save_params, scratch):
+def run_reference(src, h, steps, upto, save_params, scratch, then_observe=None):
     """Fresh lazy=False replica: replays ops[0:upto] with every OBSERVE replaced by
     'load the tables the observed replica newly loaded' and every EDIT unchanged,
     then saves once with save_params. Frozen clock, plain environment."""
@@ -687,6 +687,12 @@ def run_reference(src, h, steps, upto, save_params, scratch):
                     font[t]
                 except Exception:
                     pass  # the observed replica met (and recorded) the same failure
+    if then_observe is not None:
+        try:
+            observe(font, then_observe[0], then_observe[1], scratch, [3000], {}, {})
+            return "ok"
+        except Exception as e:
+            return "exc:" + _exc_sig(e)
     try:
         return _do_save(font, dict(save_params, dest="bytesio"), scratch, [1000])
     except Exception as e:
@@ -763,6 +769,21 @@ def exec_hist(ctx, h, src, scratch):
                 "detail": "EDIT %s raised %s in the observed replica (lazy=%s) but the fresh reference gave %s" % (ename, steps[-1]["exc"], h["knobs"].get("lazy"), ref if isinstance(ref, str) else "a font"),
                 "sig": _signature(h, aborted, [], steps),
             }
+    # an OBSERVE op that raised in the observed replica must raise the same way when it is
+    # the first observation ever made on a fresh lazy=False replica that replayed the edits
+    for i, st in enumerate(steps[1:]):
+        if st.get("kind") == "observe" and "exc" in st and not res.get("violation") and st["op"] != "failsave":
+            with world.isolated():
+                ref = run_reference(src, h, steps, i, None, scratch, then_observe=h["ops"][i])
+            probes["observe.raised"] = probes.get("observe.raised", 0) + 1
+            events.append({"observe_exc": i, "observed": st["exc"], "reference": ref})
+            if ref != "exc:" + st["exc"]:
+                res["violation"] = {
+                    "class": "observation-fails-only-after-history:%s" % st["op"],
+                    "detail": "OBSERVE %s %s raised %s in the observed replica (lazy=%s) but %s on a fresh edit-only replica; font=%s" % (st["op"], h["ops"][i][1], st["exc"], h["knobs"].get("lazy"), ref if isinstance(ref, str) else "succeeded", h["font"]),
+                    "sig": _signature(h, i, [], steps),
+                }
+            break
     for i, params, out in sorted(picks, key=lambda s: s[0]):
         if aborted is not None and i > aborted:
             continue
@@ -1020,6 +1041,17 @@ def known_match(h, v, e):
         return False
     if "font" in m and h.get("font") != m["font"]:
         return False
+    if m.get("pattern") == "edit,compile,bigedit":
+        ops = sig.get("ops", [])
+        ok = False
+        for i, a in enumerate(ops):
+            if a in EDIT_OPS:
+                for j in range(i + 1, len(ops)):
+                    if ops[j] in ("save", "failsave", "tabledata"):
+                        if any(b in BIG_EDITS for b in ops[j + 1 :]):
+                            ok = True
+        if not ok:
+            return False
     if "original" in m and sig.get("original") != m["original"]:
         return False
     if "ensure" in m and sig.get("ensure") != m["ensure"]:
